@@ -2,6 +2,9 @@
    (T)        coq/Properties_C07.v
    (K-inner)  harness/embed_c07.c (real sexp_env_cell / sexp_identifier_eq_op on random environment chains,
               closures, rename entries, context free-variable lists) vs the extracted model, query by query
+              + (round 3) frames with rename entries as imports make them, the environment of closed code built by the real
+              sexp_extend_synclo_env (xenv) and the real sexp_analyze of closures with free names around combinations (ana);
+              the real sexp_strip_synclos on data with a closure at exactly one position (strip), incl. the depth bound
    (K-inner') harness/c07_renamer.scm: the real make-renamer (direct and as er-macro-transformer builds it) on symbols
               and on closures, several calls per renamer and several renamers, vs the extracted `rename` (eq? pattern)
    (K-mid)    (chibi ast) analyze of programs over the model's macro language (global macros, let-syntax,
@@ -10,7 +13,11 @@
    (K-outer)  metamorphic: generated programs over a library of macro shapes, evaluated by the scratch
               chibi-scheme (a) hand-expanded with globally fresh names, (b) with macros and fresh user names,
               (c) with user-bound variables renamed to keywords / standard procedures / names free in the
-              templates / temporaries of init-7.scm's own macros; all results must be identical."""
+              templates / temporaries of init-7.scm's own macros; all results must be identical.
+              (round 3) + templates quoting data whose inserted symbols sit only in dotted tails / alist cdrs / vector slots
+              (syntax-rules and er-macro-transformer); + programs written as scratch libraries whose user identifiers are
+              IMPORTED (only / rename / prefix from (srfi 1), (scheme cxr), a scratch library) and used inside sc- / rsc- /
+              er-macro-transformer and syntax-rules macros (with and without free names) that bind locals of the same names."""
 import os, re, subprocess
 from vlib import build as B, scm
 
@@ -1140,7 +1147,9 @@ def run_outer(ctx, d, nprog):
                         toks.add("quote")          # 'x reads as (quote x): the user text does use `quote`
                     # candidates: the adversarial list + every other name of the program (other binders, local keywords)
                     pool = ADVERSARIAL + sorted(set(names.values())) * 2
-                    cands = [n for n in pool if n not in toks and n not in used_new and not (v in g.in_template and n in ("...", "_"))]
+                    # `it` is the declared free name of aif: a user variable referenced inside an aif branch cannot be called `it`
+                    cands = [n for n in pool if n not in toks and n not in used_new and not (v in g.in_template and n in ("...", "_"))
+                             and not (n == "it" and "(aif " in scope_text)]
                     if not cands:
                         continue
                     n = rng.choice(cands)
@@ -1898,6 +1907,13 @@ def run(ctx):
                        "binding macro used in the same template; nesting depth 1-2); non-trivial = a renamed variant. "
                        "renamer: scripts of make-renamer calls (2-4 renamers over 3 environments, arguments symbols, raw closures and earlier results, "
                        "repeated pairs) compared by eq?-classes and (env, expr) shapes with the extracted rename and an independent judge. "
+                       "round 3 - closed code: use environments whose frames carry rename entries (imports), macro-introduced frames binding the same names, "
+                       "closures with free names around (nested) combinations; lookups in the environment built by the real sexp_extend_synclo_env and the real "
+                       "sexp_analyze of such closures vs model (extend_synclo_env / enter_fv / resolve) and judge. strip: one closure at exactly one position per "
+                       "position class (car at depth 0-4 x first/middle/last, dotted tail after 1-7 elements plain / nested / in a vector, vector slot first/middle/last "
+                       "plain / in a list / as a dotted tail, alist cdr, quasi-quote, whole datum; closures single, double, around a form) + random data + lists and "
+                       "nesting at the depth bound +-1, real sexp_strip_synclos vs strip_synclos and the specification. outer-imports: 40 (thorough 1200) library "
+                       "programs x (hand expansion, fresh import names, 3 variants with imports / locals renamed to the macros' local names). "
                        "mid: forms now include let-syntax / letrec-syntax with 1-3 specs whose keyword names collide with variables, siblings and template identifiers")
     ctx.coq_obligations("Properties_C07")
     d = ctx.build("default")
@@ -1915,4 +1931,7 @@ def run(ctx):
     ctx.assume("build configuration " + MODEL_CONFIG + " (checked against the scratch build by the harness)")
     ctx.assume("define / define-syntax (top-level and internal), ellipsis, literals and multi-rule syntax-rules are tied by the outer metamorphic runs only, not by the model expander; "
                "let-syntax / letrec-syntax are inside the model for single-rule ellipsis-free specs written with plain symbols (duplicate letrec-syntax keywords excluded)")
+    ctx.assume("quoted data are trees: the cycle test of sexp_contains_syntax_p_bound (eval.c:625-626) and sharing are outside the model; the strip theorems hold for data whose "
+               "car/cdr/vector path length is below SEXP_STRIP_SYNCLOS_BOUND (%d in the scratch build; at the bound the model and the implementation are compared, not the specification)" % STRIP_BOUND)
+    ctx.assume("rename_invariance_core is stated for guarded runs, which refuse let-syntax / letrec-syntax: programs with local syntax definitions are covered by K-mid / K-outer only")
     ctx.assume("(scheme base) let-syntax / letrec-syntax wrap the core splicing forms in (let () ..): the analyze comparison drops that parameterless lambda")
